@@ -115,7 +115,7 @@ Theorem frag_total F D : forall v, fragb F D v = true -> forall st, exists j st'
 Proof.
   apply (PyValInd.pval_ind' (fun v => fragb F D v = true -> forall st, exists j st', get_state D v st = Ok (j, st'))).
   - intros v Hl Hf st. destruct v; try discriminate Hl; cbn [fragb] in Hf; try discriminate Hf; cbn [get_state]; eauto;
-      try (destruct (fresh st) as [tid0 stq]; eauto).
+      try (destruct (fresh st) as [tid0 stq]; eauto); try (destruct (fresh_uuid st) as [u0 stu]; eauto).
     apply andb_prop in Hf. destruct Hf as [Hf H3]. apply andb_prop in Hf. destruct Hf as [H1 H2].
     assert (Hsb : forall x st0, bound_supported x = true -> exists jx, sbound_json x st0 = Ok (jx, st0)).
     { intros x st0 Hx. destruct x as [[| | | |]|]; try discriminate Hx; eexists; reflexivity. }
@@ -135,7 +135,14 @@ Proof.
     destruct (content_total F D l H1 H4) with (acc := @nil (pstr * json)) (st := st0') as [cont [st1 ->]].
     { rewrite Forall_forall in *. intros x Hx. apply IH; [exact Hx|apply Hall; exact Hx]. }
     cbn [bind]. destruct (IHf Hff st1) as [jf [st2 ->]]. cbn [bind]. eauto.
-  - intros; discriminate.
+  - intros id mo c sh l IH Hf st. cbn [fragb] in Hf. apply andb_prop in Hf. destruct Hf as [Hf Hall]. apply andb_prop in Hf. destruct Hf as [Hf _].
+    apply andb_prop in Hf. destruct Hf as [_ Hsh].
+    destruct sh as [|d [|? ?]]; try discriminate Hsh. apply Z.eqb_eq in Hsh. subst d. rewrite forallb_forall in Hall.
+    cbn [get_state map]. rewrite Nat2Z.id, (tolist_rank1 (fun x s0 => get_state D x s0)). destruct (fresh st) as [lid sta].
+    destruct (states_total D l) with (st := sta) as [js [st1 ->]].
+    { rewrite Forall_forall in *. intros x Hx. apply IH; [exact Hx|apply Hall; exact Hx]. }
+    cbn [bind]. change (jindex (list_state js lid) (CodecDump.K "content")) with (Ok (A:=json) (JArr js)). cbn [bind].
+    destruct (shape_state _ st1) as [shj st2]. eauto.
   - intros id mo c d k IHd IHk Hf st. cbn [fragb] in Hf. apply andb_prop in Hf. destruct Hf as [Hf Hfk]. apply andb_prop in Hf. destruct Hf as [_ Hfd].
     cbn [get_state]. destruct (IHd Hfd st) as [jd [st1 ->]]. cbn [bind]. destruct (IHk Hfk st1) as [jk [st2 ->]]. cbn [bind]. eauto.
   - intros id mo c x IHx Hf st. cbn [fragb] in Hf. apply andb_prop in Hf. destruct Hf as [_ Hfx].
